@@ -170,7 +170,8 @@ PROPS = {
                 "moved between global and route, admin token, route order, methods) and a probe battery (per route path: anonymous / each basic credential / "
                 "each HMAC secret / GET; every pull endpoint x every token; admin x every token); mode pause: the real reloadConfig is paused at a verif "
                 "hook between its state writes and the battery must answer, probe by probe, like an entirely-old or entirely-new process; mode body-read: "
-                "an in-flight ingress request triggers the reload from inside its body Read; mode failed: 9 kinds of bad new content (removed, directory, "
+                "an in-flight ingress request triggers the reload from inside its body Read; mode pull-in-flight: every pull probe is authorized, then the reload is carried out (verif hook point), then its endpoint is resolved - "
+                "the answer (which names the route whose messages were handed out) must be the old or the new configuration's; mode failed: 9 kinds of bad new content (removed, directory, "
                 "garbage, truncated, uncompilable, unloadable secret, three restart-requiring changes) must leave every answer as an untouched process "
                 "gives it | file tier: a child process runs the real writeFileAtomic and is SIGKILLed at each hook label; the file must hold exactly the "
                 "old or the new bytes | rollback tier: management upsert/delete through the Admin API with a fault injected after the write (secret env "
@@ -180,7 +181,7 @@ PROPS = {
                 "1-3 ingress requests before and 1-4 after the reload at clock offsets around the 250 ms / 1 s cache lifetimes; every post-reload status must equal that of a process "
                 "started on the configuration in force with the same history and cold caches; non-trivial there = old and new decide the post-reload requests differently",
         "level": "fault_enumeration",
-        "assumptions": [SAMPLED, "SIGKILL keeps the page cache: power-loss durability of the rename is not decided", "mid-request mixture is explored for ingress requests only (pull/admin requests have no yield point between their two state reads)",
+        "assumptions": [SAMPLED, "SIGKILL keeps the page cache: power-loss durability of the rename is not decided", "mid-request mixture is explored for ingress requests (reload from inside the body read) and pull requests (hook point between authorization and endpoint resolution); worker gRPC requests share the repaired code path but are not driven across a reload; admin requests read the state once",
                         "--watch/SIGHUP delivery itself is not exercised; reloadConfig is called directly"],
         "guards": ["mode-pause", "mode-failed", "mode-body-read", "configs-differ-in-battery", "reload-inside-request", "holds-old", "holds-new", "fault-reload-fails"],
         "parts": [{"engine": "front", "test": "TestProp_C18_Reload", "quick": 4000, "thorough": 60000, "shards": {"quick": 8}},
